@@ -116,6 +116,9 @@ theorem store_complete (N : Nat) (lengths : List Nat) {a : PSlice} {a0 st : Int}
     rw [h2] at this; injection this
   rw [hP, ← hlen, List.take_length]
 
+/-- non-vacuity of `store_complete`'s hypothesis: `target[1:11:2]` (5 positions) receives a source of chunks (2, 3) -/
+example : (rangeUp 1 (min ((some (11 : Int)).getD (12 : Nat)) (12 : Nat)) 2).length = [2, 3].sum := by decide
+
 /-- No target position is written twice. -/
 theorem store_writes_disjoint (N : Nat) {a : PSlice} {a0 st : Int} {astop : Option Int}
     (hn : optNormalize a = some (a0, astop, st)) (hst : 0 < st) :
